@@ -136,42 +136,59 @@ impl Interpreter {
                 state.stack.push(top_data);
             }
             OpCodes::OP_NIP => {
-                state.stack.remove(state.stack.len() - 2);
+                let index = state.stack.len().checked_sub(2).ok_or(InterpreterError::InvalidStackOperation("OP_NIP requires two items on the stack"))?;
+                state.stack.remove(index);
             }
             OpCodes::OP_OVER => {
-                let index = state.stack.len() - 2;
+                let index = state.stack.len().checked_sub(2).ok_or(InterpreterError::NumberOutOfRange)?;
                 let second_last = state.stack.get(index).cloned().ok_or(InterpreterError::NumberOutOfRange)?;
                 state.stack.push_bytes(second_last);
             }
             OpCodes::OP_PICK => {
                 let index = state.stack.pop_number()?;
+                if index < 0 || index as usize >= state.stack.len() {
+                    return Err(InterpreterError::NumberOutOfRange);
+                }
                 let selected_item = state.stack.get((state.stack.len() - 1) - index as usize).cloned().ok_or(InterpreterError::NumberOutOfRange)?;
                 state.stack.push_bytes(selected_item);
             }
             OpCodes::OP_ROLL => {
                 let index = state.stack.pop_number()?;
+                if index < 0 || index as usize >= state.stack.len() {
+                    return Err(InterpreterError::NumberOutOfRange);
+                }
                 let selected_item = state.stack.remove((state.stack.len() - 1) - index as usize);
                 state.stack.push_bytes(selected_item);
             }
             OpCodes::OP_ROT => {
                 let len = state.stack.len();
+                if len < 3 {
+                    return Err(InterpreterError::InvalidStackOperation("OP_ROT requires three items on the stack"));
+                }
                 let third = state.stack.remove(len - 3);
 
                 state.stack.push_bytes(third);
             }
             OpCodes::OP_SWAP => {
                 let len = state.stack.len();
+                if len < 2 {
+                    return Err(InterpreterError::InvalidStackOperation("OP_SWAP requires two items on the stack"));
+                }
                 state.stack.swap(len - 1, len - 2);
             }
             OpCodes::OP_TUCK => {
                 let selected_item = state.stack.last().cloned().ok_or(InterpreterError::NumberOutOfRange)?;
-                state.stack.insert(state.stack.len() - 2, selected_item);
+                let index = state.stack.len().checked_sub(2).ok_or(InterpreterError::NumberOutOfRange)?;
+                state.stack.insert(index, selected_item);
             }
             OpCodes::OP_2DROP => {
                 state.stack.pop_bytes()?;
                 state.stack.pop_bytes()?;
             }
             OpCodes::OP_2DUP => {
+                if state.stack.len() < 2 {
+                    return Err(InterpreterError::NumberOutOfRange);
+                }
                 let first = state.stack.last().cloned().ok_or(InterpreterError::NumberOutOfRange)?;
                 let second = state.stack.get(state.stack.len() - 2).cloned().ok_or(InterpreterError::NumberOutOfRange)?;
 
@@ -179,6 +196,9 @@ impl Interpreter {
                 state.stack.push_bytes(second);
             }
             OpCodes::OP_3DUP => {
+                if state.stack.len() < 3 {
+                    return Err(InterpreterError::NumberOutOfRange);
+                }
                 let first = state.stack.last().cloned().ok_or(InterpreterError::NumberOutOfRange)?;
                 let second = state.stack.get(state.stack.len() - 2).cloned().ok_or(InterpreterError::NumberOutOfRange)?;
                 let third = state.stack.get(state.stack.len() - 3).cloned().ok_or(InterpreterError::NumberOutOfRange)?;
@@ -189,13 +209,16 @@ impl Interpreter {
             }
             OpCodes::OP_2OVER => {
                 let len = state.stack.len();
+                if len < 4 {
+                    return Err(InterpreterError::InvalidStackOperation("OP_2OVER requires four items on the stack"));
+                }
                 let third = state.stack[len - 3].clone();
                 let fourth = state.stack[len - 4].clone();
                 state.stack.push_bytes(fourth);
                 state.stack.push_bytes(third);
             }
             OpCodes::OP_2ROT => {
-                let index = state.stack.len() - 6;
+                let index = state.stack.len().checked_sub(6).ok_or(InterpreterError::InvalidStackOperation("OP_2ROT requires six items on the stack"))?;
                 let sixth = state.stack.remove(index);
                 let fifth = state.stack.remove(index);
                 state.stack.push_bytes(sixth);
@@ -231,7 +254,7 @@ impl Interpreter {
             }
 
             OpCodes::OP_SIZE => {
-                let len = state.stack.last().unwrap().len();
+                let len = state.stack.last().ok_or(InterpreterError::EmptyStack)?.len();
                 state.stack.push_number(len as i64)?;
             }
             OpCodes::OP_INVERT => {
